@@ -117,6 +117,22 @@ def floors(tier):
         "decided:finite_values": 500 * m,
         "decided:space_composition": 500 * m,
         "decided:space_json": 500 * m,
+        # histories on one live ranges object (value_for_last_pos re-assigned between calls)
+        "decided:history_step": 10000 * m,
+        "decided:history_bounds": 10000 * m,
+        "decided:history_decode": 20000 * m,
+        "decided:history_random_config": 5000 * m,
+        "decided:history_encode": 3000 * m,
+        "history:value_changed": 5000 * m,
+        "history:unfixed": 1000 * m,
+        "history:value_changed:single": 2000 * m,
+        "history:value_changed:space": 500 * m,
+        "history:value_changed:ext": 500 * m,
+        "history:value_changed:onehot_last_pos": 300 * m,
+        "history:value_changed:int_last_pos": 1000 * m,
+        "history:value_changed:float_last_pos": 500 * m,
+        "history:value_changed:cat_last_pos": 300 * m,
+        "history:value_changed:fin_last_pos": 300 * m,
     })
     return f
 
@@ -711,6 +727,7 @@ class _Dom:
         self.seen = set()
         self.clean = True  # no violation attributed to this domain
         self.bad_clauses = set()
+        self._members_rt = None
         self.d = None
         self.hp = None
         self.n = None
@@ -1307,6 +1324,35 @@ class _Dom:
                 # (a failing plain round trip of the same member is reported by the round-trip clause)
                 self.viol("fixed_last_pos", f"fixed_bounds_decode:{self.ctor}:{self.mcond}:{how}", {"fixed": m, "got": back})
 
+    # -- H2: histories on one live object ----------------------------------------------------------
+    @property
+    def members_rt(self):
+        """Members whose plain encode / decode round trip held (needed as fixed values / configurations)."""
+        if self._members_rt is None:
+            self._members_rt = [m for i, m in enumerate(self.members)
+                                if i in self.back and _same(self.P, m, self.back[i]) is None]
+        return self._members_rt
+
+    def check_history(self):
+        from syne_tune.optimizer.schedulers.searchers.utils.hp_ranges_factory import make_hyperparameter_ranges
+
+        rng = self.rng
+        vals = self.members_rt
+        if not vals or {"encode", "roundtrip", "bounds", "fixed_last_pos"} & self.bad_clauses:
+            self.o.count("history_not_applicable")
+            return
+        init = rng.choice([None, rng.choice(vals)])
+        try:
+            live = make_hyperparameter_ranges({"x": self.d}, name_last_pos="x", value_for_last_pos=init)
+        except Exception as e:  # noqa: BLE001
+            self.raised("history", "make_hyperparameter_ranges:name_last_pos", e)
+            return
+
+        def fresh(v):
+            return make_hyperparameter_ranges({"x": self.d}, name_last_pos="x", value_for_last_pos=v)
+
+        _history(self.o, rng, live, fresh, "x", self.P, vals, {}, self.viol, "single", rng.randint(3, 5))
+
     # -- I: JSON -----------------------------------------------------------------------------------
     def check_json(self):
         from syne_tune.config_space import config_space_from_json_dict, config_space_to_json_dict
@@ -1412,8 +1458,185 @@ class _Dom:
             self.bounds = self.get_bounds(self.hp, "plain")
             self.check_active()
             self.check_fixed()
+            self.check_history()
         self.check_json()
         self.flags.add("hp" if self.hp is not None else "nohp")
+
+
+# --------------------------------------------------------------------------- histories on ONE live ranges object
+
+
+def _eqv(a, b):
+    return type(a) is type(b) and a == b
+
+
+def _eqcfg(a, b):
+    return set(a) == set(b) and all(_eqv(a[k], b[k]) for k in a)
+
+
+def _fb(bounds):
+    return [(float(lo), float(hi)) for lo, hi in bounds]
+
+
+def _history(o, rng, live, fresh, name, P, values, others, report, via, n_steps, values_of=None):
+    """Multi-step history on ONE HyperparameterRanges object ``live`` with ``name_last_pos = name``:
+    the public attribute ``value_for_last_pos`` is re-assigned between calls (other values, the same value,
+    an earlier value, back to None = not fixed) and after every step, in a random order,
+    get_ndarray_bounds / from_ndarray of vectors inside the bounds / random_config(s) / to_ndarray are
+    re-checked: directly against the fixed value (bounds pin the last position to the encoding of the
+    *current* value, vectors inside the bounds decode to it, sampled configurations carry it) and against a
+    freshly constructed object with the same arguments (what the live object returns must not depend on its
+    history).
+
+    P: parameter dict of the last-position domain; values: members of it whose plain round trip held;
+    others: name -> _Dom of the other hyper-parameters; fresh(v): new object with value_for_last_pos=v;
+    report(clause, mechanism, detail)."""
+    ctor, mc = P["ctor"], _mcond(P)
+    tag = "" if via != "ext" else ":ext"
+    n = live.ndarray_size
+    start, end = live.encoded_ranges[name]
+    k = end - start
+    assigned = []  # earlier non-None values, in order
+    cur = live.value_for_last_pos
+    if cur is not None:
+        assigned.append(cur)
+    seen_mech = set()
+
+    def rp(clause, mech, detail):
+        if mech in seen_mech:
+            o.count("violations_repeated_in_history")
+            return
+        seen_mech.add(mech)
+        detail = dict(detail)
+        detail.update({"via": via, "assigned_so_far": assigned[-6:], "last_position": P})
+        report(clause, mech, detail)
+
+    def member_cfg(v):
+        cfg = {kk: rng.choice(D.members_rt) for kk, D in others.items()}
+        cfg[name] = v
+        return cfg
+
+    def earlier(x):
+        return any(_eqv(x, a) for a in assigned[:-1]) if assigned else False
+
+    for step in range(n_steps):
+        r = rng.random()
+        if r < 0.15:
+            v = None
+        elif r < 0.25 and cur is not None:
+            v = cur
+        elif r < 0.4 and assigned:
+            v = rng.choice(assigned)
+        else:
+            v = rng.choice(values)
+        changed = v is not None and cur is not None and not _eqv(v, cur)
+        try:
+            live.value_for_last_pos = v
+            ft = fresh(v)
+        except Exception as e:  # noqa: BLE001
+            rp("history", f"raised:history:assign:{ctor}:{mc}:{type(e).__name__}{tag}", {"error": str(e)[:200], "value": v})
+            return
+        if v is not None:
+            assigned.append(v)
+        o.count("decided:history_step")
+        o.count("history:" + ("unfixed" if v is None else "value_changed" if changed else "value_set"))
+        if changed:
+            o.count(f"history:value_changed:{via}")
+            o.count("history:value_changed:" + ("onehot_last_pos" if k > 1 else FAM[ctor] + "_last_pos"))
+        cur = v
+        ops = ["bounds", "decode", "random_config", "random_configs", "to_ndarray", "from_ndarray", "bounds"]
+        rng.shuffle(ops)
+        ops = ops[: rng.randint(2, 5)]
+        if "bounds" not in ops:
+            ops.append("bounds")
+        for op in ops:
+            try:
+                if op in ("bounds", "decode"):
+                    b = live.get_ndarray_bounds()
+                    if op == "bounds":
+                        o.count("decided:history_bounds")
+                        if len(b) != n or any(not (0.0 <= lo <= hi <= 1.0) for lo, hi in b):
+                            rp("history", f"history_bounds_shape_or_range:{ctor}:{mc}{tag}", {"bounds": _fb(b)[:12], "n": n})
+                            continue
+                        b = _fb(b)
+                        if b != _fb(ft.get_ndarray_bounds()):
+                            # witness predicate: do the bounds pin the last position to an EARLIER value?
+                            how = "differs"
+                            if v is not None:
+                                for a in assigned[:-1]:
+                                    ea = live.to_ndarray(member_cfg(a))[start:end]
+                                    if not _eqv(a, v) and all(lo == hi == float(x) for (lo, hi), x in zip(b[start:end], ea)):
+                                        how = "stale_earlier_fixed_value"
+                                        break
+                            rp("history", f"history_bounds_differ_from_fresh_object:{ctor}:{mc}:{how}{tag}",
+                               {"value": v, "bounds": b[-8:], "fresh": _fb(ft.get_ndarray_bounds())[-8:]})
+                        if v is not None:
+                            enc = live.to_ndarray(member_cfg(v))
+                            if any(not (lo == hi == float(x)) for (lo, hi), x in zip(b[start:end], enc[start:end])):
+                                how = "other"
+                                for a in assigned[:-1]:
+                                    ea = live.to_ndarray(member_cfg(a))[start:end]
+                                    if not _eqv(a, v) and all(lo == hi == float(x) for (lo, hi), x in zip(b[start:end], ea)):
+                                        how = "stale_earlier_fixed_value"
+                                        break
+                                rp("history", f"history_bounds_not_encoding_of_fixed_value:{ctor}:{mc}:{how}{tag}",
+                                   {"value": v, "bounds_last": b[start:end][:8], "encoding": enc[start:end].tolist()[:8]})
+                    else:
+                        if len(b) != n:
+                            continue
+                        b = _fb(b)
+                        vecs = [[lo for lo, hi in b], [hi for lo, hi in b]]
+                        vecs += [[min(max(lo + rng.random() * (hi - lo), lo), hi) for lo, hi in b] for _ in range(2)]
+                        for u in vecs:
+                            cfg = live.from_ndarray(np.array(u, dtype=float))
+                            o.count("decided:history_decode")
+                            if v is not None:
+                                how = _same(P, v, cfg[name])
+                                if how is not None and not how.startswith("type:"):
+                                    if earlier(cfg[name]) or any(
+                                            _same(P, a, cfg[name]) is None for a in assigned[:-1] if not _eqv(a, v)):
+                                        how = "earlier_fixed_value"
+                                    rp("history", f"history_decode_inside_bounds_not_fixed_value:{ctor}:{mc}:{how}{tag}",
+                                       {"value": v, "decoded": cfg[name], "u_last": u[start:end][:8], "bounds_last": b[start:end][:8]})
+                                    break
+                            for kk, D in others.items():
+                                hw = D.is_nonmember(cfg[kk])
+                                if hw is not None:
+                                    rp("history", f"history_decode_nonmember:{D.ctor}:{D.nonmember_cond(hw)}:{hw}{tag}",
+                                       {"key": kk, "value": cfg[kk]})
+                elif op in ("random_config", "random_configs"):
+                    sd = rng.randrange(2 ** 31)
+                    if op == "random_config":
+                        got = [live.random_config(np.random.RandomState(sd))]
+                        exp = [ft.random_config(np.random.RandomState(sd))]
+                    else:
+                        m_ = rng.randint(2, 4)
+                        got = live.random_configs(np.random.RandomState(sd), m_)
+                        exp = ft.random_configs(np.random.RandomState(sd), m_)
+                    o.count("decided:history_random_config")
+                    if len(got) != len(exp) or any(not _eqcfg(a, c) for a, c in zip(got, exp)):
+                        rp("history", f"history_{op}_differs_from_fresh_object:{ctor}:{mc}{tag}",
+                           {"value": v, "got": got[:2], "fresh": exp[:2]})
+                    if v is not None and any(not _eqv(c.get(name), v) for c in got):
+                        rp("history", f"history_{op}_not_fixed_value:{ctor}:{mc}{tag}",
+                           {"value": v, "got": [c.get(name) for c in got]})
+                elif op == "to_ndarray":
+                    cfg = member_cfg(rng.choice(values))
+                    e1, e2 = live.to_ndarray(cfg), ft.to_ndarray(cfg)
+                    o.count("decided:history_encode")
+                    if e1.shape != (n,) or not np.array_equal(e1, e2):
+                        rp("history", f"history_to_ndarray_differs_from_fresh_object:{ctor}:{mc}{tag}",
+                           {"value": v, "config": cfg, "enc": e1.tolist()[:12], "fresh": e2.tolist()[:12]})
+                else:
+                    u = np.array([rng.choice([0.0, 1.0, rng.random()]) for _ in range(n)], dtype=float)
+                    c1, c2 = live.from_ndarray(u), ft.from_ndarray(u)
+                    o.count("decided:history_decode")
+                    if not _eqcfg(c1, c2):
+                        rp("history", f"history_from_ndarray_differs_from_fresh_object:{ctor}:{mc}{tag}",
+                           {"value": v, "decoded": c1, "fresh": c2})
+            except Exception as e:  # noqa: BLE001
+                rp("history", f"raised:history:{op}:{ctor}:{mc}:{type(e).__name__}{tag}",
+                   {"error": f"{type(e).__name__}: {str(e)[:200]}", "value": v})
 
 
 # --------------------------------------------------------------------------- the space-level monitor
@@ -1532,6 +1755,8 @@ def _check_space(o, doms, seed):
                 D.viol("sample", D.sample_key(how, "size1"), {"value": cfg[k], "seed": s, "via": "random_config(space)"})
             else:
                 viol("space", f"space_random_config_nonmember:{D.ctor}:{D.nonmember_cond(how)}:{how}", {"key": k, "value": cfg[k]})
+    # histories on ONE live object: value_for_last_pos re-assigned between calls (space and ExtendedConfiguration)
+    _space_histories(o, rng, S, by_name, hp, viol)
     # active sub-ranges on a subset + fixed last position
     act = {k: by_name[k].Ad for k in order if by_name[k].Ad is not None and by_name[k].bounds_active is not None
            and "active" not in by_name[k].bad_clauses and rng.random() < 0.7}
@@ -1620,6 +1845,50 @@ def _check_space(o, doms, seed):
         if not same:
             viol("json", "space_json_encodes_differently", {"config": config, "json": txt[:600]})
             break
+
+
+def _space_histories(o, rng, S, by_name, hp_plain, viol):
+    from syne_tune.optimizer.schedulers.searchers.bayesopt.datatypes.config_ext import ExtendedConfiguration
+    from syne_tune.optimizer.schedulers.searchers.utils.hp_ranges_factory import make_hyperparameter_ranges
+
+    usable = {k: D for k, D in by_name.items() if D.members_rt and "fixed_last_pos" not in D.bad_clauses}
+    if len(usable) != len(by_name):
+        o.count("history_not_applicable")
+        return
+    # (a) a hyper-parameter of the space in the last position
+    lastH = rng.choice(sorted(usable))
+    D = usable[lastH]
+    others = {k: Dk for k, Dk in usable.items() if k != lastH}
+    init = rng.choice([None, rng.choice(D.members_rt)])
+    try:
+        live = make_hyperparameter_ranges(S, name_last_pos=lastH, value_for_last_pos=init)
+    except Exception as e:  # noqa: BLE001
+        viol("history", f"raised:make_hyperparameter_ranges:space_last_pos:{type(e).__name__}", {"error": str(e)[:200]})
+        live = None
+    if live is not None:
+        _history(o, rng, live, lambda v: make_hyperparameter_ranges(S, name_last_pos=lastH, value_for_last_pos=v),
+                 lastH, D.P, D.members_rt, others, viol, "space", rng.randint(4, 7))
+    # (b) the way the multi-fidelity searchers use it: resource attribute appended by ExtendedConfiguration,
+    # value_for_last_pos set to the target resource before every use
+    r_max = rng.choice([1, 3, 9, 27, 81, rng.randint(2, 200), 10 ** rng.randint(3, 9)])
+    r_min = rng.choice([1, rng.randint(1, r_max)])
+    try:
+        ext = ExtendedConfiguration(hp_ranges=hp_plain if hp_plain.name_last_pos is None else make_hyperparameter_ranges(S),
+                                    resource_attr_key="epoch", resource_attr_range=(r_min, r_max))
+        live = ext.hp_ranges_ext
+        name = ext.resource_attr_name
+        cs_ext = dict(live.config_space)
+    except Exception as e:  # noqa: BLE001
+        viol("history", f"raised:ExtendedConfiguration:{type(e).__name__}", {"error": str(e)[:200], "range": [r_min, r_max]})
+        return
+    if live.name_last_pos != name or live.internal_keys[-1] != name:
+        viol("history", "ext_config_resource_not_last", {"keys": list(live.internal_keys), "name": name})
+        return
+    P = {"ctor": "randint", "lower": 1, "upper": r_max}
+    vals = sorted({1, r_max, r_min, (1 + r_max) // 2} | {rng.randint(1, r_max) for _ in range(5)})
+    o.count("history:ext_config_objects")
+    _history(o, rng, live, lambda v: type(live)(cs_ext, name_last_pos=name, value_for_last_pos=v),
+             name, P, vals, dict(usable), viol, "ext", rng.randint(4, 7))
 
 
 # --------------------------------------------------------------------------- case driver
